@@ -112,6 +112,13 @@ class Model:
     if k == "const": return (e[1], e[2] & mask(e[1]))
     if k == "lit": return (None, e[1])
     if k == "lv": return (None, env["lv"][e[1]])
+    if k == "cvar":
+      return (None, e[2]) if isinstance(e[2], int) else (e[2][1], e[2][2] & mask(e[2][1]))
+    if k == "lsel":
+      wi, i = self.ev(ip, e[3], env, st)
+      if not (0 <= i < e[2]): raise IRError("list index out of range")
+      r = dict(e[1]); r["sig"] = f"{r['sig']}[{i}]"
+      return self.read(ip, r, st)
     if k == "tmp": return env["tmp"][e[1]]
     if k == "tmpsl":
       w, v = env["tmp"][e[1]]
@@ -385,7 +392,13 @@ def static_rw(m, ip, stmts):
       else:
         reads.update(rng(e[1])); ex(e[2])
     elif k == "slice_lv": reads.update(rng(e[1]))
-    elif k in ("const", "lit", "lv", "tmp", "tmpsl"): pass
+    elif k == "lsel":
+      # a literal index names one element; any other index may read every element
+      for i in ([e[3][1]] if e[3][0] == "lit" else range(e[2])):
+        r = dict(e[1]); r["sig"] = f"{r['sig']}[{i}]"
+        reads.update(rng(r))
+      ex(e[3])
+    elif k in ("const", "lit", "lv", "tmp", "tmpsl", "cvar"): pass
     elif k == "bin": ex(e[2]); ex(e[3])
     elif k in ("shl", "shr"): ex(e[1]); ex(e[2])
     elif k == "cmp": ex(e[2]); ex(e[3])
